@@ -5,10 +5,12 @@ from .. import deductive
 from ..contracts import extsub as K
 from ..contracts import normal as N
 from ..contracts import gminit as GI
+from ..contracts import bpmsg as BM
 
 
 def run(tier):
     rel, q, c = N.BP_ITEM
     return [deductive.verify_function(K.REL, 'Factor.__sub__', K.SUB, hooks=K.CellHooks(), module_env=K.module_env()),
             deductive.verify_function(rel, q, c, hooks=N.BPHooks(), module_env={'Z_calibrated': N.E.Num(N.z3.Real('Z_calibrated'))}),
-            deductive.verify_function(*GI.ITEM)]
+            deductive.verify_function(*GI.ITEM),
+            deductive.verify_function(BM.ITEM[0], BM.ITEM[1], BM.ITEM[2], hooks=BM.hooks(), prefix='%s::%s[message step]' % BM.ITEM[:2])]
